@@ -83,7 +83,16 @@ ARCH_INFO = {
     "x86_64": {"attrib": 64, "jitarch": "x86", "pcregs": ("RIP",)},
     "arml": {"attrib": "l", "jitarch": "arm", "pcregs": ("PC",)},
     "mips32l": {"attrib": "l", "jitarch": "mips32", "pcregs": ("PC", "PC_FETCH")},
+    # big-endian twins: same programs, instruction words and data accesses in the other byte order
+    "armb": {"attrib": "b", "jitarch": "arm", "pcregs": ("PC",)},
+    "mips32b": {"attrib": "b", "jitarch": "mips32", "pcregs": ("PC", "PC_FETCH")},
 }
+BE_TWIN = {"armb": "arml", "mips32b": "mips32l"}
+
+
+def family(arch):
+    """Little-endian name of @arch's family (generators, register names and layouts are per family)."""
+    return BE_TWIN.get(arch, arch)
 
 
 # ---------------------------------------------------------------------------
@@ -137,9 +146,20 @@ class StatementAssembler(object):
 _ASM = {}
 
 
+class SwappedAssembler(object):
+    """Big-endian twin of a fixed-width little-endian assembler: the same 4-byte words, bytes reversed
+    (checked once for every cached statement: the big-endian decoder reads them back as the same text)."""
+
+    def __init__(self, twin):
+        self.twin = twin
+
+    def asm(self, text):
+        return self.twin.asm(text)[::-1]
+
+
 def statement_assembler(arch):
     if arch not in _ASM:
-        _ASM[arch] = StatementAssembler(arch)
+        _ASM[arch] = SwappedAssembler(statement_assembler(BE_TWIN[arch])) if arch in BE_TWIN else StatementAssembler(arch)
     return _ASM[arch]
 
 
@@ -157,7 +177,7 @@ MIPS_REG = {n: i for i, n in enumerate(["ZERO", "AT", "V0", "V1", "A0", "A1", "A
 
 
 class ProgramFixed4(object):
-    """Programs for fixed-width (4-byte) little-endian architectures: arml, mips32l.  Plain statements go
+    """Programs for fixed-width (4-byte) architectures: arml, mips32l and their big-endian twins.  Plain statements go
     through miasm's assembler (cached); branches to labels are encoded here."""
 
     def __init__(self, arch, lines):
@@ -206,7 +226,7 @@ class ProgramFixed4(object):
                 if target not in labels:
                     raise Discard("unknown label %s" % target)
                 dst = labels[target]
-                if arch == "arml":
+                if family(arch) == "arml":
                     link = 1 if op.startswith("BL") and op[2:] in ARM_COND else 0
                     cond = op[2:] if link else op[1:]
                     if cond not in ARM_COND:
@@ -220,7 +240,7 @@ class ProgramFixed4(object):
                             (((dst - (off + 4)) >> 2) & 0xFFFF)
                     else:
                         raise Discard("bad branch %r" % text)
-                buf += word.to_bytes(4, "little")
+                buf += word.to_bytes(4, "big" if arch in BE_TWIN else "little")
             off += 4
         if "main" not in labels or "end" not in labels:
             raise Discard("no main/end")
@@ -393,9 +413,21 @@ def gen_program_x86(rng, feat, bits=32):
             return "%s %s PTR [0x%x], %s" % (rng.choice(["ADD", "XOR", "SUB", "OR"]), ptr, addr, r)
         return "%s %s PTR [0x%x], 0x%x" % (rng.choice(["ADD", "XOR", "AND"]), ptr, addr, rng.choice([1, 0x11, 0x7f]))
 
+    def soft_exc(regs):
+        # software interrupts and a division whose divisor may be zero: the host handles the exception
+        # (see soft_exception_effect) and the guest carries on
+        k = rng.random()
+        if k < 0.7 or bits != 32 or not all(x in regs for x in ("EAX", "ECX", "EDX")):
+            return [rng.choice(["INT 0x80", "INT 0x21", "INT 0x3", "SYSCALL"])]
+        pre = [rng.choice(["AND ECX, 0x1", "AND ECX, 0x3", "XOR ECX, ECX", "MOV ECX, 0x7"]), rng.choice(["MOV EDX, 0x0", "AND EDX, 0x1"])]
+        return pre + [rng.choice(["DIV ECX", "IDIV ECX"])]
+
     def body(n, regs, depth):
         out = []
         for _ in range(n):
+            if "exc" in feat and rng.random() < 0.1:
+                out.extend(soft_exc(regs))
+                continue
             r = rng.random()
             if r < 0.40 or not feat:
                 out.append(alu(regs))
@@ -541,6 +573,10 @@ def gen_program_arm(rng, feat):
     def body(n, depth):
         out = []
         for _ in range(n):
+            if "exc" in feat and rng.random() < 0.1:
+                # supervisor calls, also conditional ones (the exception is raised from a secondary IR block)
+                out.append("SVC%s 0x%x" % (rng.choice(["", "", "NE", "EQ", "GT", "CS"]), rng.choice([0, 1, 5])))
+                continue
             r = rng.random()
             if r < 0.4 or not feat:
                 out.append(alu())
@@ -674,6 +710,7 @@ def gen_program_mips(rng, feat):
 
 
 def gen_program(arch, rng, feat):
+    arch = family(arch)
     if arch == "arml":
         return gen_program_arm(rng, feat)
     if arch == "mips32l":
@@ -683,6 +720,7 @@ def gen_program(arch, rng, feat):
 
 def default_regs(arch, rng):
     """Initial registers: scratch registers random, base registers on the data pages."""
+    arch = family(arch)
     if arch == "arml":
         regs = {r: rng.getrandbits(32) for r in ["R0", "R1", "R2", "R3"]}
         regs.update({"R10": D0, "R11": D1, "R9": D1 - 2, "R8": RO, "R4": 0, "R5": 0})
@@ -719,6 +757,24 @@ def make_jitter(arch, backend, prog, init_regs, knobs):
         setattr(j.cpu, name, val)
     j.jit.set_options(jit_maxline=knobs.get("maxline", 50), max_exec_per_call=knobs.get("quantum", 0))
     return j
+
+
+SOFT_EXC_KINDS = ("INT_XX", "SOFT_BP", "SYSCALL", "DIV_BY_ZERO")
+
+
+def soft_exception_effect(arch, jitter, kind):
+    """What the host's handler of a software exception does, in the reference and in every run under
+    test alike: a visible, state-dependent effect (so that a handler invoked at another state leaves
+    another state behind), then the flag is cleared and the guest resumes."""
+    cpu = jitter.cpu
+    if kind == "DIV_BY_ZERO":
+        # pc stays on the division: give it a divisor and let it execute again
+        cpu.ECX = 3
+    else:
+        reg = "EAX" if arch.startswith("x86") else "R0"
+        num = cpu.interrupt_num & 0xFF if kind == "INT_XX" else 0
+        setattr(cpu, reg, (getattr(cpu, reg) + 0x01010101 * (1 + num) + SOFT_EXC_KINDS.index(kind)) & 0xFFFFFFFF)
+    cpu.set_exception(0)
 
 
 def digest(j, pcregs, held=None):
@@ -796,6 +852,18 @@ class Reference(object):
             return True
         j.exec_cb = cb
         done = []
+        self.exc_log = []               # (digest at the handler, kind) of every software exception, in order
+
+        def make_exc(kind):
+            def on_exc(jitter):
+                d = digest(jitter, pcregs)
+                self.index.setdefault(d, len(self.pcs) - 1)
+                self.exc_log.append((d, kind))
+                soft_exception_effect(arch, jitter, kind)
+                return True
+            return on_exc
+        for kind in SOFT_EXC_KINDS:
+            j.add_exception_handler(getattr(e.csts, "EXCEPT_" + kind), make_exc(kind))
 
         def stop(jitter):
             done.append(1)
@@ -847,6 +915,7 @@ class TestRun(object):
         self.stamps = []                # (digest, addr, bytes) host writes, for the reference
         self.cp_digests = []            # digests of all control points (host-write mode)
         self.fault_stops = 0
+        self.exc_count = 0              # software-exception handler invocations
         self.mbps = []                  # active memory breakpoints (addr, size, access)
         self.pending_fault = None
         self.last_exec_pc = None
@@ -952,7 +1021,7 @@ class TestRun(object):
                 addr = self.instr_addrs[a[2] % len(self.instr_addrs)]
             if addr == self.prog.end:
                 return False
-            if self.arch == "mips32l" and self.prog.text_at.get(addr - 4, "").split(" ")[0] in ("BEQ", "BNE", "J", "JAL", "JR"):
+            if family(self.arch) == "mips32l" and self.prog.text_at.get(addr - 4, "").split(" ")[0] in ("BEQ", "BNE", "J", "JAL", "JR"):
                 return False        # a breakpoint inside a branch delay slot has no defined meaning
             cb = a[3] % 3
             standing = addr == j.pc
@@ -1128,6 +1197,26 @@ class TestRun(object):
         jitter.vm.reset_memory_access()
         return True
 
+    def _make_soft(self, kind):
+        def on_soft(jitter):
+            """Handler of a software exception: a control point; it must be invoked exactly at the
+            states at which the reference's handler was."""
+            self.control_point("exc", jitter)
+            k = self.exc_count
+            self.exc_count += 1
+            self.probe("soft_exception_" + kind.lower())
+            if self.ref is not None:
+                want = self.ref.exc_log[k] if k < len(self.ref.exc_log) else None
+                if want != (self.cur_digest, kind):
+                    raise Violation(self.pid + "/soft-exception-misplaced",
+                                    "%s backend: handler invocation #%d (%s) at pc %#x (reference tick %s): the reference's invocation #%d is %s"
+                                    % (self.backend, k + 1, kind, jitter.pc, self.cur_tick, k + 1,
+                                       "absent" if want is None else "%s at another state (tick %s)" % (want[1], self.ref.index.get(want[0]))),
+                                    {"backend": self.backend, "kind": kind, "maxline": self.cfg["knobs"].get("maxline")})
+            soft_exception_effect(self.arch, jitter, kind)
+            return True
+        return on_soft
+
     def on_fault(self, jitter):
         """Exception handler for EXCEPT_ACCESS_VIOL: the fault stop."""
         c = self.e.csts
@@ -1174,6 +1263,8 @@ class TestRun(object):
         j.add_breakpoint(self.prog.end, self.end_cb)
         j.add_exception_handler(c.EXCEPT_ACCESS_VIOL, self.on_fault)
         j.add_exception_handler(c.EXCEPT_BREAKPOINT_MEMORY, self.on_membp)
+        for kind in SOFT_EXC_KINDS:
+            j.add_exception_handler(getattr(c, "EXCEPT_" + kind), self._make_soft(kind))
         for addr, size, access in self.mbps:
             j.vm.add_memory_breakpoint(addr, size, access)
         for addr, cbs in self.bp_model.items():
@@ -1193,9 +1284,18 @@ class TestRun(object):
             def fin(jitter):
                 return False
             j.add_breakpoint(self.prog.end, fin)
+            warm_handlers = []
+            for kind in SOFT_EXC_KINDS:
+                def on_warm(jitter, kind=kind):
+                    soft_exception_effect(self.arch, jitter, kind)
+                    return True
+                warm_handlers.append(on_warm)
+                j.add_exception_handler(getattr(e.csts, "EXCEPT_" + kind), on_warm)
             j.init_run(self.prog.entry)
             j.continue_run()
             j.remove_breakpoints_by_callback(fin)
+            for h in warm_handlers:
+                j.exceptions_handler.remove_callback(h)
             # restore the initial state, keep the translated blocks
             fresh = make_jitter(self.arch, "python", self.prog, cfg["init_regs"], {})
             mem = fresh.vm.get_all_memory()
